@@ -1,14 +1,15 @@
 #!/bin/bash
-# usage: tools/mutant_queue.sh <max-parallel>   -- reads property ids from /tmp/mt_queue (one per line, appended to at any time)
-MAXP=${1:-4}
-touch /tmp/mt_queue /tmp/mt_queue.done
+# usage: [RESULTS=dir] tools/mutant_queue.sh <max-parallel> <queue-file>   -- lines "<PROP> [extra,props]"
+MAXP=${1:-4}; Q=${2:-/tmp/mt_queue}
+touch $Q $Q.done
 while true; do
-  running=$(pgrep -f "mutant_batch.sh" | wc -l)
-  next=$(grep -vxFf /tmp/mt_queue.done /tmp/mt_queue | head -1)
+  running=$(pgrep -fc "tools/mutant_batch.sh")
+  next=$(grep -vxFf $Q.done $Q | head -1)
+  if [ -z "$next" ] && [ "$running" -eq 0 ]; then echo "queue drained"; exit 0; fi
   if [ -n "$next" ] && [ "$running" -lt "$MAXP" ]; then
-    echo "$next" >> /tmp/mt_queue.done
-    P=${next%% *}; EXTRA=$(echo "$next" | awk '{print $2}')
-    (/verif/tools/mutant_batch.sh $P $EXTRA > /tmp/mt_results/batch_$P.log 2>&1 &)
+    echo "$next" >> $Q.done
+    set -- $next
+    (/verif/tools/mutant_batch.sh $1 $2 > /dev/null 2>&1 &)
   fi
-  sleep 10
+  sleep 5
 done
